@@ -183,7 +183,7 @@ static void ProcessFile(char const* FileName, LongWord Offset) {
     Word*    WBuffer = (Word*)Buffer;
     LongWord ErgStart, ErgStop = 0xfffffffful, IntOffset = 0, MaxAdr;
     LongInt  NextPos;
-    LongWord ValidSegs;
+    LongWord ValidSegs, RecLineLen;
     Word     ErgLen = 0, ChkSum = 0, RecCnt, Gran, HSeg;
     String   CBlockName;
 
@@ -313,8 +313,20 @@ static void ProcessFile(char const* FileName, LongWord Offset) {
 
                 /* Statistik, Anzahl Datenzeilen ausrechnen */
 
-                RecCnt = ErgLen / LineLen;
-                if ((ErgLen % LineLen) != 0) {
+                /* a line holds whole address units, and the count byte of an
+                   S-record also covers address and checksum */
+
+                RecLineLen = LineLen;
+                if ((ActFormat == eHexFormatMotoS) && (RecLineLen > 250)) {
+                    RecLineLen = 250;
+                }
+                RecLineLen -= RecLineLen % Gran;
+                if (!RecLineLen) {
+                    RecLineLen = Gran;
+                }
+
+                RecCnt = ErgLen / RecLineLen;
+                if ((ErgLen % RecLineLen) != 0) {
                     RecCnt++;
                 }
 
@@ -458,7 +470,7 @@ static void ProcessFile(char const* FileName, LongWord Offset) {
                        Bei Atmel nur 2 Byte pro Zeile!
                        Bei Mico8 nur 4 Byte (davon ein Wort=18 Bit) pro Zeile! */
 
-                    TransLen = min(LineLen, ErgLen);
+                    TransLen = min(RecLineLen, ErgLen);
                     if ((ActFormat == eHexFormatIntel32)
                         && ((ErgStart & 0xffff) + (TransLen / Gran) >= 0x10000)) {
                         TransLen  = Gran * (0x10000 - (ErgStart & 0xffff));
